@@ -31,10 +31,10 @@ from vf.common import REPO, VERIF_HOME, Ctx, Failure, Stats, drive, run_sharded,
 PROP = "C20"
 LEVEL = "exploration"
 RULE = (
-    "(i) exhaustive: all sequences of <=3 symbols in quick (37k texts), <=4 in thorough (1.2M) over 33 symbols {A, b_c, 1, -2.5, 1.0.0, true, \"q s\", \", $V, [, ], ,, ::, :, ->, "
+    "(i) exhaustive: all sequences of <=3 symbols in quick (48k texts), <=4 in thorough (1.7M) over 36 symbols {A, b_c, 1, -2.5, 1.0.0, true, \"q s\", \", $V, [, ], ,, ::, :, ->, "
     "→, ∧, vs, §, #, @, <x>, {y}, space, 2 spaces, newline, tab, ```, ===D===, ===END===, ---, //c, \\}; a seeded sample of sequences of length 5-6 (quick 60k, thorough 2M). (ii) Hypothesis: Unicode text <=300 (no surrogates), punctuation soups, deep brackets (50-140), long number "
     "lexemes. (iii) 5 span mutations x ~40 packaged spec/schema/primer/fixture files x seeds. (iv) atheris (thorough, 8 forks x 6 min; "
-    "quick replays the saved corpus). (v) 18 families x {n,4n,16n} CPU time. (vi) 4 tools x hostile content x flags. Oracle: only "
+    "quick replays the saved corpus). (v) 18 families x {n,4n,16n} CPU time. (vi) 4 tools x hostile content x flags, and histories of 2-4 octave_write calls on one path with structurally different documents (numbered / named / decimal section markers). Oracle: only "
     "LexerError/ParserError escape the reader; bracket depth >100 => ParserError; tools return JSON-serialisable envelopes with "
     "status or validation_status; t(16n)/t(n) <= 64 when t(16n) >= 50 ms, breach confirmed 3x in fresh processes. Non-trivial = text "
     "accepted by the tokenizer with >=1 structural token, or rejected with a positioned error at line > 1; distinct by text."
@@ -45,7 +45,7 @@ ASSUMPTIONS = [
     "scaling is decided by CPU-time ratios over hand-chosen families; an exotic super-linear family outside them can be missed",
 ]
 
-SYMS = ["A", "b_c", "1", "-2.5", "1.0.0", "true", '"q s"', '"', "$V", "[", "]", ",", "::", ":", "->", "→", "∧", "vs", "§", "#", "@", "<x>", "{y}", " ", "  ",
+SYMS = ["A", "b_c", "1", "-2.5", "1.0.0", "true", '"q s"', '"', "$V", "[", "]", ",", "::", ":", "->", "→", "∧", "vs", "§", "#", "@", "<x>", "{y}", "<", ">", "A<b", " ", "  ",
         "\n", "\t", "```", "===D===", "===END===", "---", "//c", "\\"]
 
 
@@ -285,6 +285,62 @@ def classify_tool(name, bk, text) -> str:
 _SCRATCH = [None]
 
 
+# ---------------------------------------------------------------------------------------------- (vi-b) call histories on one path
+def shard_histories(ctx: Ctx, sh: int, nshards: int, n: int) -> Stats:
+    """Sequences of 2-4 tool calls on ONE path with structurally different documents (numbered, suffixed, named and decimal
+    section markers; blocks; lists; zones): a later call sees what an earlier one wrote (diff / metrics / inheritance code)."""
+    from hypothesis import strategies as hs
+
+    from vf import docprop, model
+
+    st = Stats()
+
+    def retag(doc, k):
+        ids = ["CONTEXT", "1.5", "2b", "DEFS", "10", "0", "A_B"]
+
+        def rec(nodes, j=[k]):
+            out = []
+            for nd in nodes:
+                if nd["t"] == "section":
+                    j[0] += 1
+                    nd = {**nd, "id": ids[j[0] % len(ids)], "kids": rec(nd["kids"])}
+                elif nd["t"] == "block":
+                    nd = {**nd, "kids": rec(nd["kids"])}
+                out.append(nd)
+            return out
+        return {**doc, "body": rec(doc["body"])}
+
+    docs = hs.lists(hs.tuples(model.document(depth=2, zones=True, comments=True, max_nodes=4, avoid=frozenset({"cr"})), hs.integers(0, 6), hs.integers(0, 3)), min_size=2, max_size=4)
+    with scratch_dir() as root:
+        p = os.path.join(root, "h.oct.md")
+
+        def one(seq):
+            if os.path.exists(p):
+                os.unlink(p)
+            texts = []
+            for doc, k, mode in seq:
+                text, _ = docprop.render_case(retag(doc, k), {"k": "len", "seed": k, "level": 0.5} if mode == 1 else {"k": "canon"})
+                texts.append(text)
+                try:
+                    if mode == 2 and os.path.exists(p):
+                        r = tools.write(target_path=p, changes={"ADDED": k, "META.M": None})
+                    elif mode == 3 and os.path.exists(p):
+                        r = tools.write(target_path=p)
+                    else:
+                        r = tools.write(target_path=p, content=text, lenient=(mode == 1), schema="META")
+                    json.dumps(r)
+                    if "status" not in r:
+                        st.fail("C20:unlisted:octave_write:envelope-without-status", {"kind": "history", "texts": texts}, "no status")
+                except BaseException as e:  # noqa: BLE001
+                    st.fail(f"C20:unlisted:octave_write:raised-in-history:{bucket(e)}", {"kind": "history", "texts": texts, "modes": [m for _, _, m in seq]},
+                            f"call {len(texts)} of a history on one path raised {bucket(e)}: {e!r} | texts={[t[:200] for t in texts]!r}")
+                    break
+            st.case({"history": [t[:120] for t in texts]}, nontrivial=True, labels=["write_history"], key=texts)
+
+        drive(docs, one, ctx.shard_seed(sh, 13), n)
+    return st
+
+
 # ---------------------------------------------------------------------------------------------- (v) scaling
 def families():
     return {
@@ -477,6 +533,7 @@ def shard_all(ctx: Ctx, sh: int, nshards: int) -> Stats:
         st.merge(shard_tokens(ctx, sh, nshards, ctx.pick(3, 4), ctx.pick(60000, 2_000_000)))
         st.merge(shard_text(ctx, sh, nshards, ctx.pick(400, 8000)))
         st.merge(shard_mut(ctx, sh, nshards, ctx.pick(40, 800)))
+        st.merge(shard_histories(ctx, sh, nshards, ctx.pick(80, 1500)))
         if sh == 0:
             fuzz_corpus(st)
         if sh == 1 % nshards:
@@ -497,6 +554,21 @@ def check_case(case) -> list[Failure]:
         st = Stats()
         probes(st)
         return [f for fl in st.failures.values() for f in fl if f.case == case]
+    if k == "history":
+        with scratch_dir() as root:
+            p = os.path.join(root, "h.oct.md")
+            for i, text in enumerate(case["texts"]):
+                mode = (case.get("modes") or [0] * 9)[i]
+                try:
+                    if mode == 2 and os.path.exists(p):
+                        tools.write(target_path=p, changes={"ADDED": 1, "META.M": None})
+                    elif mode == 3 and os.path.exists(p):
+                        tools.write(target_path=p)
+                    else:
+                        tools.write(target_path=p, content=text, lenient=(mode == 1), schema="META")
+                except BaseException as e:  # noqa: BLE001
+                    return [Failure(f"C20:unlisted:octave_write:raised-in-history:{bucket(e)}", case, repr(e))]
+        return []
     text = "".join(SYMS[i] for i in case["syms"]) if k == "tokens" else case["text"]
     with scratch_dir() as scratch:
         _SCRATCH[0] = scratch
